@@ -154,6 +154,21 @@ pub fn flatten(r: &str) -> String {
 
 // ---- the implementation under test -----------------------------------------------------------------------
 
+thread_local! {
+    /// how the small binding powers of the enumerated tables are spelt for the implementation: 0 = as they are,
+    /// 1 = spread over the whole u16 range by a strictly increasing map (the tree depends on the ORDER of the
+    /// powers only, so the reference keeps the small ones)
+    pub static POWER_SCALE: std::cell::Cell<u8> = const { std::cell::Cell::new(0) };
+}
+const SPREAD: [u16; 6] = [0, 20_000, 40_000, 65_535, 65_535, 65_535];
+fn scaled(bp: u16) -> u16 {
+    match POWER_SCALE.with(|c| c.get()) {
+        0 => bp,
+        _ => SPREAD[(bp as usize).min(5)],
+    }
+}
+
+
 type Ex<'a> = chumsky::extra::Full<Rich<'a, char>, cvh::interp::Track, ()>;
 type BOp<'a> = chumsky::pratt::Boxed<'a, 'a, &'a str, String, Ex<'a>>;
 type BP<'a> = chumsky::Boxed<'a, 'a, &'a str, String, Ex<'a>>;
@@ -171,21 +186,21 @@ macro_rules! mk_pre {
     ($o:expr) => {{
         let o: Op = $o;
         let s = o.sym;
-        prefix(o.bp, just::<_, &'a str, Ex<'a>>(s), move |_, r: String, e: &mut MX<'a, '_>| format!("({s}{r}){}", sp(e)))
+        prefix(scaled(o.bp), just::<_, &'a str, Ex<'a>>(s), move |_, r: String, e: &mut MX<'a, '_>| format!("({s}{r}){}", sp(e)))
     }};
 }
 macro_rules! mk_post {
     ($o:expr) => {{
         let o: Op = $o;
         let s = o.sym;
-        postfix(o.bp, just::<_, &'a str, Ex<'a>>(s), move |l: String, _, e: &mut MX<'a, '_>| format!("({l}{s}){}", sp(e)))
+        postfix(scaled(o.bp), just::<_, &'a str, Ex<'a>>(s), move |l: String, _, e: &mut MX<'a, '_>| format!("({l}{s}){}", sp(e)))
     }};
 }
 macro_rules! mk_inf {
     ($o:expr) => {{
         let o: Op = $o;
         let s = o.sym;
-        infix(if o.kind == Kind::InR { right(o.bp) } else { left(o.bp) }, just::<_, &'a str, Ex<'a>>(s), move |l: String, _, r: String, e: &mut MX<'a, '_>| {
+        infix(if o.kind == Kind::InR { right(scaled(o.bp)) } else { left(scaled(o.bp)) }, just::<_, &'a str, Ex<'a>>(s), move |l: String, _, r: String, e: &mut MX<'a, '_>| {
             format!("({l}{s}{r}){}", sp(e))
         })
     }};
@@ -249,17 +264,17 @@ macro_rules! pick {
     ($o:expr, P) => {{
         let o: Op = $o;
         let s = o.sym;
-        prefix(o.bp, sym_nr(s), move |_, r: String, e: &mut MX<'a, '_>| format!("({s}{r}){}", sp(e)))
+        prefix(scaled(o.bp), sym_nr(s), move |_, r: String, e: &mut MX<'a, '_>| format!("({s}{r}){}", sp(e)))
     }};
     ($o:expr, Q) => {{
         let o: Op = $o;
         let s = o.sym;
-        postfix(o.bp, sym_nr(s), move |l: String, _, e: &mut MX<'a, '_>| format!("({l}{s}){}", sp(e)))
+        postfix(scaled(o.bp), sym_nr(s), move |l: String, _, e: &mut MX<'a, '_>| format!("({l}{s}){}", sp(e)))
     }};
     ($o:expr, I) => {{
         let o: Op = $o;
         let s = o.sym;
-        infix(if o.kind == Kind::InR { right(o.bp) } else { left(o.bp) }, sym_nr(s), move |l: String, _, r: String, e: &mut MX<'a, '_>| format!("({l}{s}{r}){}", sp(e)))
+        infix(if o.kind == Kind::InR { right(scaled(o.bp)) } else { left(scaled(o.bp)) }, sym_nr(s), move |l: String, _, r: String, e: &mut MX<'a, '_>| format!("({l}{s}{r}){}", sp(e)))
     }};
 }
 fn kcode(k: Kind) -> u8 {
@@ -378,6 +393,8 @@ pub struct PrattUnit {
     /// tables with exactly these many operators
     pub ks: Vec<usize>,
     pub len: usize,
+    /// see POWER_SCALE
+    pub scale: u8,
 }
 
 fn run_one<'a>(p: &BP<'a>, s: &'a str) -> Result<(Option<String>, usize, bool), String> {
@@ -461,7 +478,7 @@ pub fn check_table(t: &[Op], ins: &[String], r: &mut UnitResult, distinct: &mut 
                 r.mismatch_count += 1;
                 if r.mismatches.len() < 20 {
                     r.mismatches.push(json!({
-                        "engine": "pratt", "unit": unit, "table": show_table(t), "input": s, "form": form,
+                        "engine": "pratt", "unit": unit, "table": show_table(t), "input": s, "form": form, "power_scale": POWER_SCALE.with(|c| c.get()),
                         "categories": ["pratt"], "detail": format!("{why}; reference {:?}", want_s), "explained_by": [],
                     }));
                 }
@@ -471,6 +488,13 @@ pub fn check_table(t: &[Op], ins: &[String], r: &mut UnitResult, distinct: &mut 
 }
 
 pub fn run_unit(u: &PrattUnit, cx: &ShardCtx) -> UnitResult {
+    POWER_SCALE.with(|c| c.set(u.scale));
+    let r = run_unit0(u, cx);
+    POWER_SCALE.with(|c| c.set(0));
+    r
+}
+
+fn run_unit0(u: &PrattUnit, cx: &ShardCtx) -> UnitResult {
     let ops = all_ops(u.nsym, u.npow);
     let mut alpha = vec!['x', '?'];
     alpha.extend(&SYMS[..u.nsym]);
@@ -505,7 +529,8 @@ pub fn run_unit(u: &PrattUnit, cx: &ShardCtx) -> UnitResult {
     r.counters.insert("unspecified_tables_skipped(postfix+infix same symbol)".into(), unspec);
     r.distinct_outcomes = distinct.len() as u64;
     r.desc = format!(
-        "Pratt: all tables of {:?} operators over {} symbols x {} powers x 4 kinds, on all {} strings over {:?} of length <= {}; forms: Vec<boxed op> (self-rewinding just() atom and symbols), statically typed tuple (<= 3 ops; atom and operator symbols are any().filter(..), which do not restore the position when they fail), tuple of boxed ops with a boxed non-rewinding atom (<= 4 ops)",
+        "Pratt{}: all tables of {:?} operators over {} symbols x {} powers x 4 kinds, on all {} strings over {:?} of length <= {}; forms: Vec<boxed op> (self-rewinding just() atom and symbols), statically typed tuple (<= 3 ops; atom and operator symbols are any().filter(..), which do not restore the position when they fail), tuple of boxed ops with a boxed non-rewinding atom (<= 4 ops)",
+        if u.scale == 1 { " (binding powers 0,1,2 spelt 0 / 20000 / 40000 for the implementation, the reference keeps the small ones: only their order matters)" } else { "" },
         u.ks, u.nsym, u.npow, ins.len(), alpha.iter().collect::<String>(), u.len
     );
     r
@@ -514,13 +539,16 @@ pub fn run_unit(u: &PrattUnit, cx: &ShardCtx) -> UnitResult {
 pub fn units(tier: Tier) -> Vec<PrattUnit> {
     let q = tier == Tier::Quick;
     let mut v = vec![
-        PrattUnit { name: "pratt-upto2-3sym-3pow".into(), nsym: 3, npow: 3, ks: vec![0, 1, 2], len: if q { 6 } else { 7 } },
-        PrattUnit { name: "pratt-3ops-2sym-2pow".into(), nsym: 2, npow: 2, ks: vec![3], len: if q { 6 } else { 8 } },
+        PrattUnit { name: "pratt-upto2-3sym-3pow".into(), nsym: 3, npow: 3, ks: vec![0, 1, 2], len: if q { 6 } else { 7 }, scale: 0 },
+        PrattUnit { name: "pratt-3ops-2sym-2pow".into(), nsym: 2, npow: 2, ks: vec![3], len: if q { 6 } else { 8 }, scale: 0 },
     ];
+    // the same tables with their powers spread over the whole u16 range (0, 20000, 40000, 65535): only the order matters
+    v.push(PrattUnit { name: "pratt-upto2-3sym-3pow-spread-powers".into(), nsym: 3, npow: 3, ks: vec![1, 2], len: if q { 5 } else { 6 }, scale: 1 });
     if !q {
-        v.push(PrattUnit { name: "pratt-3ops-3sym-3pow".into(), nsym: 3, npow: 3, ks: vec![3], len: 6 });
-        v.push(PrattUnit { name: "pratt-4ops-2sym-2pow".into(), nsym: 2, npow: 2, ks: vec![4], len: 7 });
-        v.push(PrattUnit { name: "pratt-upto2-6sym-4pow".into(), nsym: 6, npow: 4, ks: vec![1, 2], len: 5 });
+        v.push(PrattUnit { name: "pratt-3ops-2sym-3pow-spread-powers".into(), nsym: 2, npow: 3, ks: vec![3], len: 6, scale: 1 });
+        v.push(PrattUnit { name: "pratt-3ops-3sym-3pow".into(), nsym: 3, npow: 3, ks: vec![3], len: 6, scale: 0 });
+        v.push(PrattUnit { name: "pratt-4ops-2sym-2pow".into(), nsym: 2, npow: 2, ks: vec![4], len: 7, scale: 0 });
+        v.push(PrattUnit { name: "pratt-upto2-6sym-4pow".into(), nsym: 6, npow: 4, ks: vec![1, 2], len: 5, scale: 0 });
     }
     v
 }
@@ -530,7 +558,7 @@ pub fn units(tier: Tier) -> Vec<PrattUnit> {
 /// engine decides "the span of the sub-expression being built".
 pub fn units_spans(tier: Tier) -> Vec<PrattUnit> {
     let q = tier == Tier::Quick;
-    vec![PrattUnit { name: "pratt-fold-spans-upto2-3sym-2pow".into(), nsym: 3, npow: 2, ks: vec![1, 2], len: if q { 5 } else { 7 } }]
+    vec![PrattUnit { name: "pratt-fold-spans-upto2-3sym-2pow".into(), nsym: 3, npow: 2, ks: vec![1, 2], len: if q { 5 } else { 7 }, scale: 0 }]
 }
 
 pub fn replay(v: &Value) -> Result<Option<String>, String> {
@@ -538,7 +566,9 @@ pub fn replay(v: &Value) -> Result<Option<String>, String> {
     let input = v["input"].as_str().ok_or("no input")?.to_string();
     let mut r = UnitResult::default();
     let mut d = HashSet::new();
+    POWER_SCALE.with(|c| c.set(v["power_scale"].as_u64().unwrap_or(0) as u8));
     check_table(&t, &[input], &mut r, &mut d, "replay");
+    POWER_SCALE.with(|c| c.set(0));
     Ok(r.mismatches.first().map(|m| format!("{}", m["detail"].as_str().unwrap_or(""))))
 }
 
